@@ -6,6 +6,7 @@ import genmodel as G
 import C01
 
 ID = "C18"
+HARNESS_ENV = {"COCA_BIN": __import__("os").path.join(vlib.ROOT, "harness", "bin", "coca")}
 MODEL_ENTRY = "C18.model"
 SPEC_ENTRY = "C18.spec"
 HARNESS_OP = "C18"
@@ -19,7 +20,8 @@ RULE = ("stream count: random code models (multigraphs of methods: parallel call
         "return identifiers or strings containing the letters null, pass null as an argument, names in every camel-case "
         "shape (acronyms, single letters, digits, underscores, stop words), calls with multiplicities to declared and "
         "undeclared methods; through the two analysis passes, evaluate.Analyser, count.BuildCallMap and "
-        "concept.ConceptAnalyser; non-trivial = a count / a nullable method / a concept word present; distinct = distinct input")
+        "concept.ConceptAnalyser; non-trivial = a count / a nullable method / a concept word present; distinct = distinct input"
+        '; every other model / project is observed through `coca count`, `coca concept` (the tables they print) and `coca evaluate` (coca_reporter/evaluate.json)')
 TRUSTED_BASE = C01.TRUSTED_BASE + [
     "modelled, not verified: strcase.ToDelimited (third-party) is modelled over ASCII names; gonum's standard deviations and "
     "the method-length statistics of the summary are outside C18 and not compared",
